@@ -146,17 +146,19 @@ RefMustBeUsed(c, k) == \E d \in RefEnabledRaw(c) : RefSuppressors(c, d) = {k}
 RefMetaOn(c) == ~RefBareFileLevel(c)      \* a blanket file-level ignore also silences the meta codes
 RefBareReported(c) == IF c.bare_on /\ RefMetaOn(c) THEN {k \in RefCommentLines(c) : c.lines[k].ign = "bare"} ELSE {}
 
-\* judge an output (a set of [code, line]) against the reference
-OutputOK(c, out) ==
-    /\ {d \in out : d.code \in Codes} = RefReported(c)
+\* judge an output (a set of [code, line]) against the reference; `codes` = the codes statements can
+\* raise in the universe the file was drawn from (SuppressionRoutes.tla uses a larger one)
+OutputOKFor(c, out, codes) ==
+    /\ {d \in out : d.code \in codes} = RefReported(c)
     /\ \A k \in RefCommentLines(c) :
          LET rep == [code |-> "unused_ignore", line |-> k] \in out
          IN IF ~(c.unused_on /\ RefMetaOn(c)) THEN ~rep
             ELSE /\ (RefMustBeUnused(c, k) => rep)
                  /\ (RefMustBeUsed(c, k) => ~rep)
     /\ {d.line : d \in {e \in out : e.code = "bare_ignore"}} = RefBareReported(c)
-    /\ \A d \in out : d.code \in Codes \cup {"unused_ignore", "bare_ignore"}
+    /\ \A d \in out : d.code \in codes \cup {"unused_ignore", "bare_ignore"}
     /\ \A d \in {e \in out : e.code = "unused_ignore"} : d.line \in RefCommentLines(c)
+OutputOK(c, out) == OutputOKFor(c, out, Codes)
 
 (***************************************************************************)
 (* The machine: generator stages, then one step per show_error call.       *)
